@@ -685,6 +685,9 @@ class RTCDtlsTransport(AsyncIOEventEmitter):
         ssrcs = set()
         for encoding in parameters.encodings:
             ssrcs.add(encoding.ssrc)
+            # the retransmission stream belongs to the same receiver
+            if encoding.rtx is not None:
+                ssrcs.add(encoding.rtx.ssrc)
 
         self._rtp_header_extensions_map.configure(parameters)
         self._rtp_router.register_receiver(
